@@ -198,6 +198,18 @@ def grid(seed, scale=1.0):
         a, b = rnd.choice(funs), rnd.choice(funs)
         add("nested", rnd.choice([A("str.len", a), A("str.++", a, b), A("str.contains", a, b), A("str.to.int", A("str.from_int", A("str.len", a))),
                                   A("str.indexof", a, b, I(0)), A("str.prefixof", b, a)]))
+    # re.range with bounds that are special inside a character class of other regex dialects
+    specials = ["^", "]", "[", "\\", "-", "a", "z", "A", "!", "~", "0"]
+    probes = ["^", "]", "[", "\\", "-", "a", "z", "A", "_", "`", "!", "~", "5", ""]
+    for lo, hi in itertools.product(specials, specials):
+        for c in some(probes, 5):
+            add("re-range-special", A("str.in_re", S(c), A("re.range", S(lo), S(hi))))
+    # conjunctions / disjunctions whose children all depend on the same two strings (lifted to two variables, in varying order)
+    for a, b in some([(a, b) for a, b in itertools.product(["A", "B", "ab", "b", "", "7"], repeat=2) if a != b], 16):
+        add("two-var-nested", A("and", A("str.prefixof", S(a), S(b)), A("=", A("str.++", S(a), S(b)), S(a + b))))
+        add("two-var-nested", A("and", A("=", A("str.++", S(b), S(a)), S(b + a)), A("=", A("str.++", S(a), S(b)), S(a + b))))
+        add("two-var-nested", A("or", A("str.contains", S(a), S(b)), A("=", A("str.len", A("str.++", S(b), S(a))), I(len(a) + 1))))
+        add("two-var-nested", A("and", A("=", A("str.++", S(a), S(b)), S(a + b)), A("str.<=", S(b), A("str.++", S(a), S(b)))))
     # numerals beyond 2^31 / 2^53 (family "bignum": judged against Z3 only, TLC's integers are 32-bit)
     bigs = ["2147483648", "4294967296", "9007199254740992", "9007199254740993", "9007199254740994", "18446744073709551616",
             "99999999999999999999", "100000000000000000000", "123456789012345678", "123456789012345679"]
